@@ -15,7 +15,7 @@ def all_notations():
             n[f'sorted-exists@{v}'] = K.sorted_exists(v)
             n[f'kore-exists@{v}'] = K.kore_exists(v)
             n[f'forall@{v}'] = S.forall(v)
-        for k in (0, 1, 2, 3):
+        for k in (0, 1, 2, 3, 11, 13):      # two-digit hole numbers as well
             n[f'nary@{k}'] = K.nary_app(P.Symbol('s7'), k)
             n[f'cell@{k}'] = K.nary_app(P.Symbol('s8'), k, True)
         _ALLN = n
